@@ -103,9 +103,58 @@ var isValidDesktopFileLine = regexp.MustCompile(strings.Join([]string{
 	"^TargetEnvironment=",
 }, "|")).Match
 
+// execArgReservedChars are the characters that the Desktop Entry
+// Specification reserves in the value of the Exec key: an argument that
+// contains any of them must be quoted.
+//
+// https://specifications.freedesktop.org/desktop-entry-spec/latest/exec-variables.html
+const execArgReservedChars = " \t\n\"'\\><~|&;$*?#()`"
+
+// quoteExecArg returns arg in the form in which it can be used as a single
+// argument in the value of an Exec key. An argument that needs no quoting is
+// returned unchanged.
+//
+// According to the Desktop Entry Specification a literal percent sign is
+// written as %%; an argument with reserved characters is enclosed in double
+// quotes, with double quote, backtick, dollar sign and backslash escaped by a
+// backslash. Exec is a value of type string, the escape sequences of which
+// (\s, \n, \t, \r and \\) are undone before the quoting rules apply, so
+// every backslash that the quoting rule asks for is written as two and
+// control characters are written as their escape sequences.
+func quoteExecArg(arg string) string {
+	arg = strings.Replace(arg, "%", "%%", -1)
+	if !strings.ContainsAny(arg, execArgReservedChars+"\r") {
+		return arg
+	}
+	var buf strings.Builder
+	buf.Grow(len(arg) + 8)
+	buf.WriteByte('"')
+	for i := 0; i < len(arg); i++ {
+		switch c := arg[i]; c {
+		case '"', '`', '$':
+			buf.WriteString(`\\`)
+			buf.WriteByte(c)
+		case '\\':
+			buf.WriteString(`\\\\`)
+		case '\n':
+			buf.WriteString(`\n`)
+		case '\t':
+			buf.WriteString(`\t`)
+		case '\r':
+			buf.WriteString(`\r`)
+		default:
+			buf.WriteByte(c)
+		}
+	}
+	buf.WriteByte('"')
+	return buf.String()
+}
+
 // rewriteExecLine rewrites a "Exec=" line to use the wrapper path for snap application.
 func rewriteExecLine(s *snap.Info, desktopFile, line string) (string, error) {
-	env := fmt.Sprintf("env BAMF_DESKTOP_FILE_HINT=%s ", desktopFile)
+	// the name of the desktop file is chosen by the snap, make sure that
+	// it is a single argument whatever characters it is made of
+	env := fmt.Sprintf("env %s ", quoteExecArg("BAMF_DESKTOP_FILE_HINT="+desktopFile))
 
 	cmd := strings.SplitN(line, "=", 2)[1]
 	for _, app := range s.Apps {
@@ -194,12 +243,18 @@ func sanitizeDesktopFile(s *snap.Info, desktopFile string, rawcontent []byte) []
 		// rewrite exec lines to an absolute path for the binary
 		if bytes.HasPrefix(bline, []byte("Exec=")) {
 			var err error
+			// do variable substitution in the arguments first, the
+			// name of the desktop file that is added to the line
+			// is to be taken literally
+			bline = bytes.Replace(bline, []byte("${SNAP}"), mountDir, -1)
 			line, err := rewriteExecLine(s, desktopFile, string(bline))
 			if err != nil {
 				// something went wrong, ignore the line
 				continue
 			}
-			bline = []byte(line)
+			newContent.WriteString(line)
+			newContent.WriteByte('\n')
+			continue
 		}
 
 		// rewrite icon line if it references an icon theme icon
